@@ -246,7 +246,7 @@ pub fn run_check(ctx: &Ctx) {
     );
     let n = ctx.tier.pick(1_500_000u64, 20_000_000);
     ctx.run_gen("boundary", boundary, n, check, |c| to_json(c));
-    ctx.run_gen("digit-runs", digit_runs, n / 3, check, |c| to_json(c));
+    ctx.run_gen("digit-runs", digit_runs, n / 6, check, |c| to_json(c));
     ctx.run_gen(
         "random",
         || (rational(), 1usize..=20, 1usize..=15, prop::bool::weighted(0.85)).prop_map(|(v, l, e, c)| DCase::new(&v, l, e, c)),
